@@ -120,6 +120,21 @@ Theorem c07_refresh : forall s u pw,
 Proof. exact refreshes. Qed.
 Print Assumptions c07_refresh.
 
+(* ... WHATEVER was stored for the user before and however recently: in every state (so after every
+   history), a login that a replica answers and the directory accepts (primary writable) is accepted,
+   the record GetSigned yields for the user afterwards is the genuine hash of the password JUST
+   accepted, signed now for 96 h, and if from then on no replica answers (any list of replicas none
+   of which is up), a login of the user is accepted for exactly that password - not for the one a
+   previous login had stored, a minute or a day ago. *)
+Theorem c07_refresh_whatever_was_stored : forall s u pw,
+  In SUp (servers s) -> dir_accepts s u pw = true -> writable (st s) = true ->
+  let s' := fst (login s u pw) in
+  snd (login s u pw) = true /\
+  get_pw true s' u = GOk (mk_jws true u pw (now (st s)) (now (st s) + 96 * 3600)) /\
+  forall svs pw', ~ In SUp svs -> snd (login (with_servers s' svs) u pw') = N.eqb pw pw'.
+Proof. exact refresh_whatever_was_stored. Qed.
+Print Assumptions c07_refresh_whatever_was_stored.
+
 (* a login that no server answers writes nothing *)
 Theorem c07_outage_login_pure : forall s u pw, ~ In SUp (servers s) -> fst (login s u pw) = s.
 Proof. exact outage_login_pure. Qed.
